@@ -5,6 +5,7 @@ Tols4 == {<<0, 1>>, <<1, 2>>, <<1, 1>>, <<3, 2>>}
 Tols5 == Tols4 \cup {<<2, 1>>}
 TolsW == {<<0, 1>>, <<1, 2>>, <<1, 1>>}
 Tol1 == {<<1, 1>>}
+Tol0 == {<<0, 1>>}
 Tol1h == {<<1, 1>>, <<1, 2>>}
 Gens5 == {-1, 0, 1, 2, 3}
 Gens6 == {-1, 0, 1, 2, 3, 4}
